@@ -13,6 +13,9 @@ CLAIMED = {
     "C02": ("exploration", "DESIGN.md 4 (C02)", "seeded deterministic simulation with an independent VOL encoder/decoder as oracle: library-written archives parsed from the durable bytes; reference-encoded archives (spare slots, LZH/RLE/LZ members) opened by the library",
             "Two directions: every archive written in vol-roundtrip runs is parsed byte by byte by a strict independent decoder (tiling, names, blocks, search order); archives emitted by the independent encoder with 0..3 spare index slots and stored/LZH/RLE/LZ members are opened with VolFile and listed, streamed and extracted (LZH members must extract to the independent LZH decoder's output). Sampling evidence, not proof.",
             "Trusts sim/models/refvol.h and reflzh.h (written from the public format description, no code shared with /repo/src)."),
+    "C04": ("exploration", "DESIGN.md 4 (C04)", "seeded deterministic simulation: LZH decompressor vs an independent LZHUF reference decoder/encoder under seeded drain schedules (GetData boundary sizes mixed with GetInternalBuffer), damaged and over-capacity inputs, and VOL extraction",
+            "Inputs: reference-encoded token lists covering every match length 3..60 and distance class, tokenised payloads, random bytes up to 100 KiB, constant bytes, truncated and bit-flipped streams, and streams needing more than 65221 symbol updates. The consumer is a seeded drain schedule; output must equal the reference decoder byte for byte for every schedule, a capacity error must be raised exactly where the reference stops, and extraction of the same stream as an LZH member of a reference-encoded VOL must write the same bytes. Sampling evidence, not proof.",
+            "Trusts sim/models/reflzh.h (classical son/prnt/freq LZHUF form written from the format description; its encoder/decoder pair is self-checked in every payload run). Output for the 0-byte input is not asserted."),
     "C12": ("exploration", "DESIGN.md 4 (C12), 2.3", "seeded deterministic simulation: reader actors vs byte-vector/cursor reference model, boundary/wrap argument classes, transparent I/O faults",
             "Seeded search over operation histories (reads, partial reads, peeks, seeks, typed helpers) on memory readers, memory slices, file slices and nested slices; every step is compared with a reference cursor model, destination buffers are exactly sized heap blocks under ASan, refused operations are checked for atomicity on the following steps. Sampling evidence, not proof.",
             "Trusts the reference model in sim/scen/stream_actors.cpp and ASan/UBSan/_GLIBCXX_ASSERTIONS for memory errors; file-backed actors run over real libstdc++ filebuf on tmpfs with injected short reads and EINTR."),
